@@ -24,7 +24,10 @@ func parseCacheControl(ccHeader string) (cacheControl, error) {
 	for directive := range strings.SplitSeq(ccHeader, ",") {
 		// Directive names are case-insensitive (RFC 9111 section 5.2)
 		directive = strings.ToLower(strings.TrimSpace(directive))
-		if directive == "no-cache" || directive == "no-store" || directive == "private" {
+		// "private" and "no-cache" may name the fields they apply to (private="Set-Cookie"): a response
+		// marked like that is not for a shared store either, so only the name before "=" is looked at.
+		name, _, _ := strings.Cut(directive, "=")
+		if name == "no-cache" || name == "no-store" || name == "private" {
 			cc.noCache = true
 		} else if after, ok := strings.CutPrefix(directive, "max-age="); ok {
 			// max-age directive specifies the maximum amount of time a response is considered fresh in seconds.
